@@ -275,13 +275,16 @@ def prepare(prop, tier, seed, only=None):
     _ST['tier'] = tier
     npairs = 0
     _ST['n_random'] = (9000 if prop == 'C10' else 5000) if tier == 'quick' else (150000 if prop == 'C10' else 60000)
+    _ST['n_pairs'] = (3000 if prop == 'C10' else 1500) if tier == 'quick' else (120000 if prop == 'C10' else 30000)
     if not _ST['names']:
         _ST['n_random'] = 0
+        _ST['n_pairs'] = 0
 
 
 def n_runs(prop, tier):
-    # index 0 .. n_cross-1: the history-free cross-path findings of prepare (one pseudo run each)
-    return len(_ST['prep_cross']) + _ST['n_random']
+    # index 0 .. n_cross-1: the history-free cross-path findings of prepare (one pseudo run each),
+    # then the random histories, then the stratified pair pass
+    return len(_ST['prep_cross']) + _ST['n_random'] + _ST.get('n_pairs', 0)
 
 
 # ---------------------------------------------------------------- a simulation run
@@ -293,6 +296,23 @@ def gen_spec(prop, tier, seed, index):
     rs = run_seed(seed, prop, tier, index)
     r = substream(rs, 'cfg')
     names = _ST['names']
+    if index >= nx + _ST['n_random']:
+        # stratified pair pass: file and ordered pair of op kinds are enumerated by the index, the ops of those
+        # kinds and the displacement are seeded
+        k = index - nx - _ST['n_random']
+        name = names[k % len(names)]
+        fi = _ST['files'][name]
+        kinds = sorted(set(_kind(o) for o in fi['pool']))
+        pi = (k // len(names)) % (len(kinds) ** 2)
+        perm = substream(h64(seed, 'pairperm', name), 'p')
+        order = list(range(len(kinds) ** 2))
+        perm.shuffle(order)
+        pi = order[pi]
+        ka, kb = kinds[pi // len(kinds)], kinds[pi % len(kinds)]
+        oa = r.choice([o for o in fi['pool'] if _kind(o) == ka])
+        ob = r.choice([o for o in fi['pool'] if _kind(o) == kb])
+        cfg = dict(p_displace=r.choice([0, 0.5, 1.0]), p_abandon=0, burst=1, policy='pair')
+        return dict(engine=ENGINE, kind='sim', file=name, tasks=[[oa], [ob]], cfg=cfg, seed=rs, schedule=None, focus=_focus(prop))
     name = names[(index - nx) % len(names)] if r.random() < 0.5 else r.choice(names)
     fi = _ST['files'][name]
     pool = fi['pool']
@@ -306,7 +326,15 @@ def gen_spec(prop, tier, seed, index):
         tasks.append([pool[i] for i in rq.choices(range(len(pool)), weights=weights, k=nops)])
     cfg = dict(p_displace=r.choice([0, 0.1, 0.5, 1.0]), p_abandon=r.choice([0, 0, 0.05, 0.3]),
                burst=r.choice([1, 1, 2, 5]))
-    return dict(engine=ENGINE, kind='sim', file=name, tasks=tasks, cfg=cfg, seed=rs, schedule=None, focus=_focus(prop))
+    spec = dict(engine=ENGINE, kind='sim', file=name, tasks=tasks, cfg=cfg, seed=rs, schedule=None, focus=_focus(prop))
+    if ntasks >= 2 and len(names) > 1 and r.random() < 0.08:
+        # two files opened in one process (process-wide struct caches): the last task works on another file
+        other = r.choice([n for n in names if n != name])
+        fo = _ST['files'][other]
+        spec['files'] = [name, other]
+        spec['task_files'] = [0] * (ntasks - 1) + [1]
+        spec['tasks'][-1] = [fo['pool'][i] for i in rq.choices(range(len(fo['pool'])), k=rq.randrange(1, 9))]
+    return spec
 
 
 def _abstract_state(ctx):
@@ -324,7 +352,7 @@ def _abstract_state(ctx):
 
 
 class _Task:
-    __slots__ = ('ops', 'oi', 'gen', 'si', 'ref', 'done', 'key', 'ticks', 'multi')
+    __slots__ = ('ops', 'oi', 'gen', 'si', 'ref', 'done', 'key', 'ticks', 'multi', 'fx')
 
     def __init__(self, ops):
         self.ops = ops
@@ -338,12 +366,27 @@ class _Task:
 def execute_spec(spec):
     if spec.get('kind') == 'cross':
         return _execute_cross(spec)
-    fi = _file_info(spec['file'])
-    refs = fi.get('refs', {})
-    ticks = fi.get('ticks', {})
-    positions = fi.get('positions', {})
-    ctx = _mkctx(fi)
+    fnames = spec.get('files') or [spec['file']]
+    fis = [_file_info(n) for n in fnames]
+    ctxs = [_mkctx(f) for f in fis]
+    tfile = spec.get('task_files') or [0] * len(spec['tasks'])
     tasks = [_Task(ops) for ops in spec['tasks']]
+    for t, fx in zip(tasks, tfile):
+        t.fx = fx
+    # all contexts tick one clock: the run has one simulated time
+    for c in ctxs[1:]:
+        c.clock = ctxs[0].clock
+        for st in c.streams.values():
+            st.clock = ctxs[0].clock
+    ctx = ctxs[0]
+    multi = len(ctxs) > 1
+
+    def all_streams():
+        out = {}
+        for i, c in enumerate(ctxs):
+            for nm, st in c.streams.items():
+                out[('%d:%s' % (i, nm)) if multi else nm] = (st, i)
+        return out
     sched_in = spec.get('schedule')
     lenient = bool(spec.get('lenient'))
     r = substream(spec.get('seed', 0), 'sched')
@@ -369,14 +412,14 @@ def execute_spec(spec):
                 return
             op = t.ops[t.oi]
             key = json.dumps(op)
-            ref = refs.get(key)
+            ref = fis[t.fx].get('refs', {}).get(key)
             if ref is None:
                 raise RuntimeError('no solo reference prepared for op %s' % key)
-            t.gen = OPS[op[0]](ctx, *op[1:])
+            t.gen = OPS[op[0]](ctxs[t.fx], *op[1:])
             t.si = 0
             t.ref = ref
             t.key = key
-            t.ticks = ticks.get(key, 0)
+            t.ticks = fis[t.fx].get('ticks', {}).get(key, 0)
             return
 
     for t in tasks:
@@ -422,7 +465,7 @@ def execute_spec(spec):
         last_kind = kind
         if any(k != ti for k in open_multi):
             between += 1
-        states.add((_abstract_state(ctx), kind))
+        states.add((_abstract_state(ctxs[t.fx]), kind))
         if t.si >= len(t.ref):
             viol(t, ti, 'extra-steps', 'op ends after %d steps' % len(t.ref), jsonable(obs, 600))
             t.gen = None
@@ -454,7 +497,7 @@ def execute_spec(spec):
                 step(ti)
                 sched_out.append(ev)
             elif ev[0] == 'displace':
-                s = ctx.streams.get(ev[1])
+                s = all_streams().get(ev[1], (None, 0))[0]
                 if s is None:
                     if lenient:
                         continue
@@ -484,6 +527,58 @@ def execute_spec(spec):
                         sched_out.append(['step', ti])
                         nsteps += 1
     else:
+        def displace_some():
+            nonlocal displaced
+            streams = all_streams()
+            names = list(streams)
+            for sn in r.sample(names, min(len(names), r.choice([1, 1, 2, len(names)]))):
+                s, fx = streams[sn]
+                positions = fis[fx].get('positions', {})
+                base = sn.split(':')[-1].split('.')[-1]
+                c = r.randrange(10)
+                if c == 0:
+                    p = 0
+                elif c == 1:
+                    p = 1
+                elif c == 2:
+                    p = max(0, s.size - 1)
+                elif c == 3:
+                    p = s.size
+                elif c == 4:
+                    p = s.size + r.randrange(1, 64)
+                elif c == 5:
+                    p = s.pos + 1
+                elif c == 6:
+                    p = max(0, s.pos - r.randrange(1, 9))
+                elif c == 7 and positions.get(base):
+                    p = r.choice(positions[base])
+                else:
+                    p = r.randrange(0, s.size + 1)
+                s.displace(p)
+                displaced += 1
+                sched_out.append(['displace', sn, p])
+                log.append(('d', sn, p))
+
+        if cfg.get('policy') == 'pair' and len(tasks) == 2:
+            # stratified pair pass: a (half-way, left suspended) ; displacement? ; b (to its end) ; rest of a
+            half = max(1, len(tasks[0].ref or []) // 2) if tasks[0].ref else 0
+            k = 0
+            while not tasks[0].done and k < half and tasks[0].oi == 0:
+                step(0)
+                sched_out.append(['step', 0])
+                k += 1
+            if cfg['p_displace'] and r.random() < cfg['p_displace']:
+                displace_some()
+            while not tasks[1].done and nsteps < maxsteps:
+                step(1)
+                sched_out.append(['step', 1])
+                nsteps += 1
+            if cfg['p_displace'] and r.random() < cfg['p_displace']:
+                displace_some()
+            while not tasks[0].done and nsteps < maxsteps:
+                step(0)
+                sched_out.append(['step', 0])
+                nsteps += 1
         while nsteps < maxsteps:
             run = [i for i, t in enumerate(tasks) if not t.done]
             if not run:
@@ -496,33 +591,7 @@ def execute_spec(spec):
                 sched_out.append(['step', ti])
                 nsteps += 1
             if cfg['p_displace'] and r.random() < cfg['p_displace']:
-                names = list(ctx.streams)
-                for sn in r.sample(names, min(len(names), r.choice([1, 1, 2, len(names)]))):
-                    s = ctx.streams[sn]
-                    base = sn.split('.')[-1]
-                    c = r.randrange(10)
-                    if c == 0:
-                        p = 0
-                    elif c == 1:
-                        p = 1
-                    elif c == 2:
-                        p = max(0, s.size - 1)
-                    elif c == 3:
-                        p = s.size
-                    elif c == 4:
-                        p = s.size + r.randrange(1, 64)
-                    elif c == 5:
-                        p = s.pos + 1
-                    elif c == 6:
-                        p = max(0, s.pos - r.randrange(1, 9))
-                    elif c == 7 and positions.get(base):
-                        p = r.choice(positions[base])
-                    else:
-                        p = r.randrange(0, s.size + 1)
-                    s.displace(p)
-                    displaced += 1
-                    sched_out.append(['displace', sn, p])
-                    log.append(('d', sn, p))
+                displace_some()
             if cfg['p_abandon'] and r.random() < cfg['p_abandon']:
                 run = [i for i, t in enumerate(tasks) if not t.done]
                 if run:
@@ -538,10 +607,11 @@ def execute_spec(spec):
     nontrivial = between > 0 or displaced > 0
     sample = None
     return dict(spec=out_spec, violations=violations, digest=pdigest(log), nontrivial=nontrivial,
-                nt_digest=pdigest(spec['file'], sched_out, spec['tasks']), evaluations=1, sim_time=ctx.clock.seq,
+                nt_digest=pdigest(fnames, sched_out, spec['tasks']), evaluations=1, sim_time=ctx.clock.seq,
                 faults={'cursor_displacement': [displaced, displaced], 'iterator_abandon': [abandoned, abandoned],
                         'interleaved_step': [between, between]},
-                probes={'steps': len([l for l in log if isinstance(l[0], int)]),
+                probes={'steps': len([l for l in log if isinstance(l[0], int)]), 'two_file_runs': int(multi),
+                        'pair_pass_runs': int(cfg.get('policy') == 'pair'),
                         **{'pair:%s>%s' % p: 1 for p in pairs}, **{'state:%s' % cdigest(s): 1 for s in states}},
                 sample=sample)
 
@@ -575,19 +645,24 @@ def prepare_replay(prop, spec):
     if spec.get('kind') == 'cross':
         _file_info(spec['file'])
         return
-    fi = _file_info(spec['file'])
-    ops = []
-    seen = set()
-    for t in spec['tasks']:
-        for o in t:
-            k = json.dumps(o)
-            if k not in seen:
-                seen.add(k)
-                ops.append(o)
-    st, res = forkpool.isolated(_prep_file, (spec['file'], 'quick', 0, spec.get('focus'), ops), timeout=600)
-    if st != 'ok':
-        raise SystemExit('HARNESS-ERROR prepare_replay: %s %s' % (st, str(res)[-500:]))
-    fi.update(refs=res['refs'], ticks=res['ticks'], positions=res['positions'], kinds=res['kinds'], pool=res['pool'])
+    fnames = spec.get('files') or [spec['file']]
+    tfile = spec.get('task_files') or [0] * len(spec['tasks'])
+    for fx, fname in enumerate(fnames):
+        fi = _file_info(fname)
+        ops = []
+        seen = set()
+        for t, tf in zip(spec['tasks'], tfile):
+            if tf != fx:
+                continue
+            for o in t:
+                k = json.dumps(o)
+                if k not in seen:
+                    seen.add(k)
+                    ops.append(o)
+        st, res = forkpool.isolated(_prep_file, (fname, 'quick', 0, spec.get('focus'), ops), timeout=600)
+        if st != 'ok':
+            raise SystemExit('HARNESS-ERROR prepare_replay: %s %s' % (st, str(res)[-500:]))
+        fi.update(refs=res['refs'], ticks=res['ticks'], positions=res['positions'], kinds=res['kinds'], pool=res['pool'])
 
 
 def _run(cand, key):
